@@ -19,7 +19,8 @@ func (f *syntaxAggregateFunction) retrieve(
 		return err
 	}
 
-	result := values.result
+	result := make([]interface{}, len(values.result))
+	copy(result, values.result)
 	if !f.param.isValueGroup() {
 		if arrayParam, ok := values.result[0].([]interface{}); ok {
 			result = arrayParam
